@@ -124,7 +124,7 @@ ContGet(q, u, o, f, c1, c2) ==
 \* builder refused the object
 Digest(p, o, kind, d) ==
     /\ Live(p, o) /\ kind \in DigestKinds
-    /\ digs' = digs \cup {[s |-> StructOf(heap[p][o].tree), kind |-> kind, d |-> d]}
+    /\ digs' = digs \cup {[s |-> StructFor(kind, heap[p][o].tree), kind |-> kind, d |-> d]}
     /\ obs' = [a |-> "Digest", p |-> p, o |-> o, kind |-> kind, d |-> d]
     /\ UNCHANGED << heap, hfun, msgs >>
 
